@@ -10,6 +10,8 @@ PROPS["C05"] = {
     "lean_module": "RaftVerif.Props.C05",
     "theorems": [
         T("SV.ae_commit_rule", "the stepped model's AppendEntries, every image / state / request: after a successful answer the commit index is the old one, or strictly larger and equal to min(LeaderCommitIndex, last index this request covers) - never over entries the request did not vouch for (the F8 repair), never backwards"),
+        T("SV.commitBranch_commit", "the stepped leader loop: the commit index a leader reports is the commitment tracker's, the object C05.commit_is_majority speaks about"),
+        T("SV.commitBranch_acks_committed", "and a call is acknowledged only when that commit index has reached its index"),
         T("C05.commit_is_majority", "every commitment step: monotone; a change needs a strict voter majority at the new index, >= startIndex, and is maximal"),
         T("C05.commit_monotone", "commit index monotone over every operation sequence"),
         T("C05.model_meets_spec", "the executable Spec evaluated on the implementation is met by the model"),
@@ -27,6 +29,8 @@ PROPS["C07"] = {
     "theorems": [
         T("SV.campaign_leader_needs_quorum", "a candidate becomes leader only with a quorum of the voters of its latest configuration; its own vote counts only if it is a voter of it"),
         T("SV.campAsked_voters", "a candidate asks only voters of its latest configuration for pre-votes and votes"),
+        T("SV.lead_one_uncommitted_config", "the stepped leader loop: as long as it runs, every configuration entry in its log above the committed configuration's index is the latest configuration's entry - the log never holds two uncommitted configurations - for every step of API calls (membership calls served at once or after waiting for the gate), acknowledgements, heartbeat answers, a newer term reported, and every store fault"),
+        T("SV.appendConfig_inv", "appendConfigurationEntry keeps that invariant exactly because it runs only when the latest configuration is the committed one (the gate)"),
         T("C07.next_config_delta_le_one_voter", "voter sets of a configuration and its successor differ at most on the named server"),
         T("C07.touches_only_target", "every other server entry is carried over unchanged, all five commands"),
         T("C07.next_config_wellformed", "results have non-empty unique ids and addresses and at least one voter"),
@@ -205,14 +209,20 @@ for _p in ["C01", "C02", "C03", "C04"]:
     PROPS[_p]["assumptions"] = PROPS[_p]["assumptions"] + [H3_NOTE]
 
 PROPS["C08"] = {
-    "lean_module": "RaftVerif.Props.C03",
+    "lean_module": "RaftVerif.Props.C08",
     "theorems": [
+        T("SV.dispatch_ok", "the stepped leader loop, dispatchLogs for any group of calls: one StoreLogs (after the optional staging of the commit index) with the group's entries numbered consecutively from the last index, in the leader's term, in call order; the calls are in flight, nobody has been answered yet"),
+        T("SV.dispatch_failed", "a failing StoreLogs stores nothing of the group, answers every call of the group with the store's error and leaves the server a follower"),
+        T("SV.commitBranch_acks_committed", "the commit branch answers nil only in-flight calls whose index the commit index has reached, with exactly that index and, for a command, that command's own response; it answers nobody else"),
+        T("SV.commitBranch_rest", "what stays in flight afterwards is the tail of the in-flight list from the first call the commit index has not reached: no call is dropped unanswered"),
+        T("SV.commitBranch_commit", "the commit index the server reports after the commit branch is the commitment tracker's (whose every advance is a voter majority at or above the leader's first index: C05.commit_is_majority)"),
+        T("SV.cleanup_answers_everyone", "on the way out of leadership every call still in flight and every pending VerifyLeader is answered"),
         T("RP.ack_exact_forever", "cluster model: once a commit index has reached k with entry e there (the moment an Apply future resolves nil), every FSM is handed e at k in every continuation", "partial"),
         T("RP.fsm_safety", "no two FSM records at one index differ", "partial"),
     ],
     "engines": [cluster("C08", 200, 5000)],
     "assumptions": [H3_NOTE, "client calls carry unique payloads; Response() is compared with the payload the FSM returns for that very entry"],
-    "level_note": "partial: the leader loop (dispatchLogs, inflight futures, the commit loop, the batching FSM's response pairing) is not in the stepped model; those are covered by the H3 monitors only.",
+    "level_note": "partial: the leader loop (dispatchLogs, in-flight futures, commit branch, clean-up) is in the stepped model and proved about; the FSM goroutine's batching and response pairing, leadership transfer and the ErrEnqueueTimeout path are covered by the H3 monitors only; the global theorems are about the cut-down cluster model.",
 }
 
 PROPS["C12"] = {
@@ -230,6 +240,10 @@ PROPS["C17"] = {
     "theorems": [
         T("RL.every_future_resolves", "role-loop model: every Apply future that reached the main loop is in flight or resolved exactly once, and nothing is in flight once the server is not leader (step-down, lost election, shutdown) - for every sequence of role changes, calls, commits and shutdown", "partial"),
         T("RL.refused_call_not_queued", "a call arriving at a non-leader / shut-down server is answered ErrNotLeader / ErrRaftShutdown at once and never queued"),
+        T("SV.cleanup_answers_everyone", "the stepped leader loop: runLeader's clean-up answers every call still in flight and every pending VerifyLeader"),
+        T("SV.cleanup_keeps_answers", "and it answers with ErrLeadershipLost only, never replacing an answer already given"),
+        T("SV.step_lead_only_while_leader", "whatever a step does (calls, acknowledgements, heartbeats, a newer term reported by a follower, a request of another server), the leader's bookkeeping (in-flight futures, pending verifications) survives it only if the server is still leader: every way out of leadership runs the clean-up"),
+        T("SV.dispatch_failed", "a failing StoreLogs answers every call of the group with the store's error"),
     ],
     "engines": [cluster("C17", 200, 5000)],
     "assumptions": [H3_NOTE, "a call counts as stranded when it has not resolved after 20 virtual seconds; NotifyCh/Observer consumers and the FSM are live in the harness"],
